@@ -564,6 +564,10 @@ class Pattern(Interp):
             if d in ("numpy.abs", "numpy.absolute") and len(data) == 1 and isinstance(data[0], PV) and data[0].pw is not None:
                 a = data[0]
                 return PV(a.lvl, a.prov, pw=("m", a.pw[1], ("abs", a.pw[2])))
+            if d in ("numpy.abs", "numpy.absolute") and len(data) == 1 and isinstance(data[0], PV) and data[0].lvl == RAW:
+                # |x| of raw entries whose pointwise form was lost on the way (copies, reshapes): an anonymous matrix, entry by entry
+                a = data[0]
+                return PV(RAW, a.prov, pw=("m", -1, ("abs", "a")))
             return PV(allv.lvl, allv.prov)
         if d.startswith("numpy.random.") or d.startswith("random."):
             return PV(min(allv.lvl, PAT) if allv.lvl < ARITH else ARITH, allv.prov)
